@@ -192,6 +192,9 @@ func (p *parser) newListLiteralStart(pos plToken.Pos) *ast.Node {
 }
 
 func (p *parser) newListLiteralAppendExpr(initExpr *ast.Node, elem *ast.Node) *ast.Node {
+	if initExpr == nil || elem == nil {
+		return nil // the operand was rejected and its error recorded
+	}
 	if initExpr.NodeType != ast.TypeListLiteral {
 		p.addParseErrf(p.yyParser.lval.item.PositionRange(),
 			"%s object is not ListLiteral", initExpr.NodeType)
@@ -203,6 +206,9 @@ func (p *parser) newListLiteralAppendExpr(initExpr *ast.Node, elem *ast.Node) *a
 }
 
 func (p *parser) newListLiteralEnd(initExpr *ast.Node, pos plToken.Pos) *ast.Node {
+	if initExpr == nil {
+		return nil
+	}
 	if initExpr.NodeType != ast.TypeListLiteral {
 		p.addParseErrf(p.yyParser.lval.item.PositionRange(),
 			"%s object is not ListLiteral", initExpr.NodeType)
@@ -220,6 +226,9 @@ func (p *parser) newMapLiteralStart(pos plToken.Pos) *ast.Node {
 }
 
 func (p *parser) newMapLiteralAppendExpr(initExpr *ast.Node, keyNode *ast.Node, valueNode *ast.Node) *ast.Node {
+	if initExpr == nil || keyNode == nil || valueNode == nil {
+		return nil // the operand was rejected and its error recorded
+	}
 	if initExpr.NodeType != ast.TypeMapLiteral {
 		p.addParseErrf(p.yyParser.lval.item.PositionRange(),
 			"%s object is not MapLiteral", initExpr.NodeType)
@@ -232,6 +241,9 @@ func (p *parser) newMapLiteralAppendExpr(initExpr *ast.Node, keyNode *ast.Node, 
 }
 
 func (p *parser) newMapLiteralEnd(initExpr *ast.Node, pos plToken.Pos) *ast.Node {
+	if initExpr == nil {
+		return nil
+	}
 	if initExpr.NodeType != ast.TypeMapLiteral {
 		p.addParseErrf(p.yyParser.lval.item.PositionRange(),
 			"%s object is not MapLiteral", initExpr.NodeType)
@@ -295,6 +307,9 @@ func (p *parser) newForStmt(initExpr *ast.Node, condExpr *ast.Node, loopExpr *as
 }
 
 func (p *parser) newForInStmt(inExpr *ast.Node, body *ast.BlockStmt, forTk Item) *ast.Node {
+	if inExpr == nil {
+		return nil // the operand was rejected and its error recorded
+	}
 	var expr *ast.InExpr
 
 	switch inExpr.NodeType { //nolint:exhaustive
@@ -302,6 +317,10 @@ func (p *parser) newForInStmt(inExpr *ast.Node, body *ast.BlockStmt, forTk Item)
 		expr = inExpr.InExpr()
 	default:
 		p.addParseErrf(p.yyParser.lval.item.PositionRange(), "%s object is not identifier", inExpr.NodeType)
+		return nil
+	}
+
+	if expr.LHS == nil || expr.RHS == nil {
 		return nil
 	}
 
@@ -374,6 +393,9 @@ func (p *parser) newIfElem(ifTk Item, condition *ast.Node, block *ast.BlockStmt)
 }
 
 func (p *parser) newUnaryExpr(op Item, r *ast.Node) *ast.Node {
+	if r == nil {
+		return nil // the operand was rejected and its error recorded
+	}
 	switch op.Typ {
 	case ADD, SUB:
 		// 负数
@@ -428,6 +450,9 @@ func (p *parser) newConditionalExpr(l, r *ast.Node, op Item) *ast.Node {
 }
 
 func (p *parser) newArithmeticExpr(l, r *ast.Node, op Item) *ast.Node {
+	if l == nil || r == nil {
+		return nil // the operand was rejected and its error recorded
+	}
 	switch op.Typ {
 	case DIV, MOD: // div 0 or mod 0
 		switch r.NodeType { //nolint:exhaustive
@@ -500,6 +525,9 @@ func (p *parser) newIndexExpr(obj *ast.Node, lBracket Item, index *ast.Node, rBr
 }
 
 func (p *parser) newCallExpr(fn *ast.Node, args []*ast.Node, lParen, rParen Item) *ast.Node {
+	if fn == nil {
+		return nil
+	}
 	var fname string
 
 	switch fn.NodeType { //nolint:exhaustive
